@@ -452,8 +452,12 @@ def _keep(ctx, repo):
                         r = r.value
                     if isinstance(r, ast.Attribute) and is_self_attr(r, r.attr) and r.attr.endswith("_data"):
                         shr.add(r.attr)
-        for st in f.node.body:
-            if isinstance(st, ast.If) and any(isinstance(y, ast.Return) for y in st.body) and isinstance(st.test, ast.Compare) and isinstance(st.test.ops[0], ast.NotIn):
+        def _shrinks(stmts):
+            return any(isinstance(x, ast.Call) and isinstance(x.func, ast.Attribute) and x.func.attr in _SHRINK for s_ in stmts for x in ast.walk(s_)) or any(isinstance(x, ast.Delete) for s_ in stmts for x in ast.walk(s_))
+        for st in ast.walk(f.node):
+            # the "unknown: nothing to do" exits, written as guard clauses or as the `if` side of an if/else whose else does the work
+            if isinstance(st, ast.If) and isinstance(st.test, ast.Compare) and isinstance(st.test.ops[0], ast.NotIn) and not _shrinks(st.body) \
+                    and (any(isinstance(y, ast.Return) for y in st.body) or _shrinks(st.orelse)):
                 tab = st.test.comparators[0]
                 while isinstance(tab, ast.Subscript):
                     tab = tab.value
